@@ -1,7 +1,8 @@
 import Tea.Proofs.Lifecycle
 /-
-The rank argument for C04: every progress step strictly decreases `rank`, no other step
-except `killCall` increases it, the no-deadlock lemma, and their combination.
+The rank argument for C04: every progress step (the internal steps of Run's start-up included)
+and every return of the start-up's user code strictly decreases `rank`, no other step except
+`killCall` increases it, the no-deadlock lemma, and their combination.
 -/
 namespace Tea.Runtime.Life
 
@@ -20,8 +21,19 @@ theorem rank_decreases {s s' : St} {l : Label} (hp : progressLabel l = true)
   step_cases hs l
   all_goals first
     | (simp [progressLabel] at hp; done)
-    | (simp_all [rank, runW, phaseW, elW, sigW, hW, readW]; done)
-    | (simp_all [rank, runW, phaseW, elW, sigW, hW, readW]; omega)
+    | (simp_all [rank, runW, phaseW, elW, sigW, hW, readW, stageW]; done)
+    | (simp_all [rank, runW, phaseW, elW, sigW, hW, readW, stageW]; omega)
+    | exact rank_setKiller _ _ _ _ _ (by assumption) (by decide) rfl rfl rfl rfl rfl rfl rfl rfl rfl
+    | exact rank_setKiller _ _ _ _ _ (And.left (by assumption)) (by decide) rfl rfl rfl rfl rfl rfl rfl rfl rfl
+
+/-- ... and so does every return of the user code of Run's start-up -/
+theorem rank_decreases_schedule {s s' : St} {l : Label} (hp : scheduleLabel l = true)
+    (hs : step s l = some s') : rank s' < rank s := by
+  step_cases hs l
+  all_goals first
+    | (simp [scheduleLabel, progressLabel, startupReturn] at hp; done)
+    | (simp_all [rank, runW, phaseW, elW, sigW, hW, readW, stageW]; done)
+    | (simp_all [rank, runW, phaseW, elW, sigW, hW, readW, stageW]; omega)
     | exact rank_setKiller _ _ _ _ _ (by assumption) (by decide) rfl rfl rfl rfl rfl rfl rfl rfl rfl
     | exact rank_setKiller _ _ _ _ _ (And.left (by assumption)) (by decide) rfl rfl rfl rfl rfl rfl rfl rfl rfl
 
@@ -41,8 +53,8 @@ theorem rank_le {s s' : St} {l : Label} (hl : l ≠ .killCall)
   all_goals first
     | exact absurd rfl hl
     | exact Nat.le_refl _
-    | (simp_all [rank, runW, phaseW, elW, sigW, hW, readW]; done)
-    | (simp_all [rank, runW, phaseW, elW, sigW, hW, readW]; omega)
+    | (simp_all [rank, runW, phaseW, elW, sigW, hW, readW, stageW]; done)
+    | (simp_all [rank, runW, phaseW, elW, sigW, hW, readW, stageW]; omega)
     | exact rank_setKiller_le _ _ _ _ _ (by assumption) (by decide) rfl rfl rfl rfl rfl rfl rfl rfl rfl
     | exact rank_setKiller_le _ _ _ _ _ (And.left (by assumption)) (by decide) rfl rfl rfl rfl rfl rfl rfl rfl rfl
 
@@ -103,37 +115,70 @@ theorem killer_progress {c : Config} {s : St} (hr : Reachable c s) (hctx : ¬ s.
       exact hctx ((inv_ctx hr).killers ph (by rw [hks]; exact List.mem_cons_self) hne)
     simp [step, phaseOf, hks, hph]
 
+/-- `halt()` never waits unless the listen goroutine is inside the user's writer: whoever has
+reached the renderer phase of its shutdown can take the step - whether the renderer has been
+created or not, started or not, halted already or not -/
+theorem shRenderer_enabled (s : St) (who : Option Nat) (hph : phaseOf s who = some .renderer)
+    (hfl : s.listen ≠ .flushing) : (step s (.shRenderer who)).isSome = true := by
+  simp only [step]
+  rw [if_pos hph]
+  split
+  · rfl
+  · cases hl : s.listen with
+    | flushing => exact absurd hl hfl
+    | _ => rfl
+
+/-- ... and exactly then: the step of somebody in its renderer phase is disabled iff the renderer
+exists and its listen goroutine is inside the user's writer -/
+theorem shRenderer_disabled_iff (s : St) (who : Option Nat) (hph : phaseOf s who = some .renderer) :
+    step s (.shRenderer who) = none ↔ (s.rendererMade = true ∧ s.listen = .flushing) := by
+  simp only [step]
+  rw [if_pos hph]
+  cases hm : s.rendererMade <;> cases hl : s.listen <;> simp
+
 /-- Run's return cannot be blocked: in every reachable state in which termination has begun,
 Run has not returned and no user callback is in progress, some progress step is enabled -/
 theorem no_deadlock {c : Config} {s : St} (hr : Reachable c s) (ht : Terminating s)
     (hn : s.runPc ≠ .returned) (hc : NoCallback s) :
     ∃ l, progressLabel l = true ∧ (step s l).isSome = true := by
   have I := inv_ctx hr
-  have L := inv_listen hr
-  obtain ⟨hcb, hvw, hfl⟩ := hc
+  have S := inv_start hr
+  obtain ⟨hcb, hvw, hfl, hmw, hic, hfv⟩ := hc
   cases hpc : s.runPc with
   | returned => exact absurd hpc hn
+  | starting p =>
+    cases p with
+    | sigHandler => exact ⟨.suSigHandler, rfl, by simp [step, hpc]⟩
+    | newRenderer => exact ⟨.suNewRenderer, rfl, by simp [step, hpc]⟩
+    | modeWrites => exact absurd hpc hmw
+    | startRenderer => exact ⟨.suStartRenderer, rfl, by simp [step, hpc]⟩
+    | initCall => exact absurd hpc hic
+    | spawnInit => exact ⟨.suSpawnInit, rfl, by simp [step, hpc]⟩
+    | firstView => exact absurd hpc hfv
+    | openReader => exact ⟨.suOpenReader, rfl, by simp [step, hpc]⟩
+    | spawnHandlers => exact ⟨.suSpawnHandlers, rfl, by simp [step, hpc, (S.starting _ hpc).1]⟩
   | loop =>
+    have hkill : ¬ s.ctxDone = true → (∀ cz, s.el ≠ .exited cz) → s.killers ≠ [] := by
+      intro hctx hel
+      rcases ht with h | ⟨cz, h⟩ | h | h | h
+      · exact absurd h hctx
+      · exact absurd h (hel cz)
+      · exact h
+      · rw [hpc] at h; cases h
+      · rw [hpc] at h; cases h
     cases hel : s.el with
+    | notStarted => exact absurd hel (S.loop hpc).1
     | callback => exact absurd hel hcb
     | view => exact absurd hel hvw
     | exited cz => exact ⟨.runTail, rfl, by simp [step, hel, hpc]⟩
     | select =>
       by_cases hctx : s.ctxDone = true
       · exact ⟨.elCtxExit, rfl, by simp [step, hel, hctx]⟩
-      · refine ⟨.shCancel (some 0), rfl, killer_progress hr hctx ?_⟩
-        rcases ht with h | ⟨cz, h⟩ | h
-        · exact absurd h hctx
-        · rw [hel] at h; cases h
-        · exact h
+      · exact ⟨.shCancel (some 0), rfl, killer_progress hr hctx (hkill hctx (by simp [hel]))⟩
     | cmdSend =>
       by_cases hctx : s.ctxDone = true
       · exact ⟨.elCmdAbort, rfl, by simp [step, hel, hctx]⟩
-      · refine ⟨.shCancel (some 0), rfl, killer_progress hr hctx ?_⟩
-        rcases ht with h | ⟨cz, h⟩ | h
-        · exact absurd h hctx
-        · rw [hel] at h; cases h
-        · exact h
+      · exact ⟨.shCancel (some 0), rfl, killer_progress hr hctx (hkill hctx (by simp [hel]))⟩
   | tail =>
     cases hsh : s.runSh with
     | cancel => exact ⟨.shCancel none, rfl, by simp [step, phaseOf, hpc, hsh]⟩
@@ -150,25 +195,30 @@ theorem no_deadlock {c : Config} {s : St} (hr : Reachable c s) (ht : Terminating
       · split <;> rfl
     | waitRead => exact ⟨.shWaitReadTimeout none, rfl, by simp [step, phaseOf, hpc, hsh]⟩
     | renderer =>
-      refine ⟨.shRenderer none, rfl, ?_⟩
-      by_cases ho : s.onceDone = true
-      · simp [step, phaseOf, hpc, hsh, ho]
-      · have hli : s.listen = .idle := by
-          cases hl : s.listen with
-          | idle => rfl
-          | flushing => exact absurd hl hfl
-          | stopped => exact absurd (L.1 hl) ho
-        simp [step, phaseOf, hpc, hsh, ho, hli]
+      exact ⟨.shRenderer none, rfl, shRenderer_enabled s none ((phaseOf_none s _).2 ⟨hpc, hsh⟩) hfl⟩
     | restore => exact ⟨.shRestore none, rfl, by simp [step, phaseOf, hpc, hsh]⟩
     | done => exact ⟨.runReturn, rfl, by simp [step, hpc, hsh]⟩
+
+/-- the same when Run may be inside the user code of its start-up: then that code's return is the
+enabled step -/
+theorem no_deadlock_schedule {c : Config} {s : St} (hr : Reachable c s) (ht : Terminating s)
+    (hn : s.runPc ≠ .returned) (hq : LoopQuiet s) :
+    ∃ l, scheduleLabel l = true ∧ (step s l).isSome = true := by
+  by_cases h1 : s.runPc = .starting .modeWrites
+  · exact ⟨.startWriterReturns, rfl, by simp [step, h1]⟩
+  by_cases h2 : s.runPc = .starting .initCall
+  · exact ⟨.initReturns, rfl, by simp [step, h2]⟩
+  by_cases h3 : s.runPc = .starting .firstView
+  · exact ⟨.firstViewReturns, rfl, by simp [step, h3]⟩
+  obtain ⟨l, hp, he⟩ := no_deadlock hr ht hn ⟨hq.1, hq.2.1, hq.2.2, h1, h2, h3⟩
+  exact ⟨l, by simp [scheduleLabel, hp], he⟩
 
 /-- a shutdown call on another goroutine (Kill(), a panic handler) cannot be blocked either -/
 theorem killer_no_deadlock {c : Config} {s : St} (hr : Reachable c s) (hc : NoCallback s)
     (j : Nat) (ph : ShPhase) (hj : s.killers[j]? = some ph) (hph : ph ≠ .done) :
     ∃ l, progressLabel l = true ∧ (step s l).isSome = true := by
   have I := inv_ctx hr
-  have L := inv_listen hr
-  obtain ⟨hcb, hvw, hfl⟩ := hc
+  obtain ⟨hcb, hvw, hfl, _, _, _⟩ := hc
   cases ph with
   | done => exact absurd rfl hph
   | cancel => exact ⟨.shCancel (some j), rfl, by simp [step, phaseOf, hj]⟩
@@ -184,16 +234,7 @@ theorem killer_no_deadlock {c : Config} {s : St} (hr : Reachable c s) (hc : NoCa
     · rfl
     · split <;> rfl
   | waitRead => exact ⟨.shWaitReadTimeout (some j), rfl, by simp [step, phaseOf, hj]⟩
-  | renderer =>
-    refine ⟨.shRenderer (some j), rfl, ?_⟩
-    by_cases ho : s.onceDone = true
-    · simp [step, phaseOf, hj, ho]
-    · have hli : s.listen = .idle := by
-        cases hl : s.listen with
-        | idle => rfl
-        | flushing => exact absurd hl hfl
-        | stopped => exact absurd (L.1 hl) ho
-      simp [step, phaseOf, hj, ho, hli]
+  | renderer => exact ⟨.shRenderer (some j), rfl, shRenderer_enabled s (some j) hj hfl⟩
   | restore => exact ⟨.shRestore (some j), rfl, by simp [step, phaseOf, hj]⟩
 
 /-! ### combination -/
@@ -208,33 +249,36 @@ theorem terminating_runLabels {s s' : St} (ls : List Label) (h : runLabels s ls 
     · rename_i s1 h1; exact ih h (terminating_stable h1 ht)
     · cases h
 
-/-- from every reachable terminating state with no callback in progress, at most `rank s`
-progress steps, each enabled in turn, bring Run to its return -/
-theorem run_returns {c : Config} : ∀ (n : Nat) {s : St}, rank s ≤ n → Reachable c s → Terminating s →
-    NoCallback s →
-    ∃ ls s', (∀ l ∈ ls, progressLabel l = true) ∧ ls.length ≤ rank s ∧ runLabels s ls = some s' ∧
-      s'.runPc = .returned := by
+/-- the scheme of every "Run returns" theorem: if every step of an alphabet `A` decreases the rank
+and keeps an invariant `I`, and `I` enables some step of `A` as long as Run has not returned, then
+from every state with `I` a schedule of at most `rank s` steps of `A`, each enabled in turn, leads
+to a state with `I` in which Run has returned -/
+theorem schedule_exists (A : Label → Bool) (I : St → Prop)
+    (hdec : ∀ s s' l, A l = true → step s l = some s' → rank s' < rank s)
+    (hI : ∀ s s' l, I s → A l = true → step s l = some s' → I s')
+    (hen : ∀ s, I s → s.runPc ≠ .returned → ∃ l, A l = true ∧ (step s l).isSome = true) :
+    ∀ (n : Nat) {s : St}, rank s ≤ n → I s →
+      ∃ ls s', (∀ l ∈ ls, A l = true) ∧ ls.length ≤ rank s ∧ runLabels s ls = some s' ∧ I s' ∧
+        s'.runPc = .returned := by
   intro n
   induction n with
   | zero =>
-    intro s hn hr ht hc
+    intro s hn hi
     by_cases hret : s.runPc = .returned
-    · exact ⟨[], s, by simp, by simp, rfl, hret⟩
-    · obtain ⟨l, hp, hen⟩ := no_deadlock hr ht hret hc
-      obtain ⟨s1, hs1⟩ := Option.isSome_iff_exists.1 hen
-      have := rank_decreases hp hs1
+    · exact ⟨[], s, by simp, by simp, rfl, hi, hret⟩
+    · obtain ⟨l, hp, he⟩ := hen s hi hret
+      obtain ⟨s1, hs1⟩ := Option.isSome_iff_exists.1 he
+      have := hdec _ _ _ hp hs1
       omega
   | succ n ih =>
-    intro s hn hr ht hc
+    intro s hn hi
     by_cases hret : s.runPc = .returned
-    · exact ⟨[], s, by simp, by simp, rfl, hret⟩
-    · obtain ⟨l, hp, hen⟩ := no_deadlock hr ht hret hc
-      obtain ⟨s1, hs1⟩ := Option.isSome_iff_exists.1 hen
-      have hlt := rank_decreases hp hs1
-      obtain ⟨ls, s2, hall, hlen, hrun, hfin⟩ :=
-        ih (s := s1) (by omega) (Reachable.step l hr hs1) (terminating_stable hs1 ht)
-          (noCallback_progress hp hs1 hc)
-      refine ⟨l :: ls, s2, ?_, ?_, ?_, hfin⟩
+    · exact ⟨[], s, by simp, by simp, rfl, hi, hret⟩
+    · obtain ⟨l, hp, he⟩ := hen s hi hret
+      obtain ⟨s1, hs1⟩ := Option.isSome_iff_exists.1 he
+      have hlt := hdec _ _ _ hp hs1
+      obtain ⟨ls, s2, hall, hlen, hrun, hi2, hfin⟩ := ih (s := s1) (by omega) (hI _ _ _ hi hp hs1)
+      refine ⟨l :: ls, s2, ?_, ?_, ?_, hi2, hfin⟩
       · intro l' hl'
         rcases List.mem_cons.1 hl' with h | h
         · rw [h]; exact hp
@@ -242,27 +286,68 @@ theorem run_returns {c : Config} : ∀ (n : Nat) {s : St}, rank s ≤ n → Reac
       · simp only [List.length_cons]; omega
       · simp only [runLabels, hs1]; exact hrun
 
-/-- progress steps alone, at most `rank s` of them, lead to a state in which none is enabled -/
-theorem run_to_quiescence : ∀ (n : Nat) {s : St}, rank s ≤ n → NoCallback s →
+/-- from every reachable terminating state with no callback in progress on the loop and the listen
+goroutine, at most `rank s` steps - progress steps and, while Run is starting up, the returns of the
+start-up's user code -, each enabled in turn, bring Run to its return -/
+theorem run_returns {c : Config} {s : St} (hr : Reachable c s) (ht : Terminating s) (hq : LoopQuiet s) :
+    ∃ ls s', (∀ l ∈ ls, scheduleLabel l = true) ∧ ls.length ≤ rank s ∧ runLabels s ls = some s' ∧
+      s'.runPc = .returned := by
+  obtain ⟨ls, s', h1, h2, h3, _, h5⟩ :=
+    schedule_exists scheduleLabel (fun s => Reachable c s ∧ Terminating s ∧ LoopQuiet s)
+      (fun _ _ _ hp hs => rank_decreases_schedule hp hs)
+      (fun _ _ l hi hp hs =>
+        ⟨Reachable.step l hi.1 hs, terminating_stable hs hi.2.1, loopQuiet_schedule hp hs hi.2.2⟩)
+      (fun _ hi hn => no_deadlock_schedule hi.1 hi.2.1 hn hi.2.2)
+      (rank s) (Nat.le_refl _) ⟨hr, ht, hq⟩
+  exact ⟨ls, s', h1, h2, h3, h5⟩
+
+/-- once Run is past its start-up (in its loop or its tail), progress steps ALONE do it: the
+statement of the model that started at the loop, for every state of the extended model in which the
+start-up is over -/
+theorem run_returns_past {c : Config} {s : St} (hr : Reachable c s) (ht : Terminating s)
+    (hc : NoCallback s) (hpast : ∀ p, s.runPc ≠ .starting p) :
     ∃ ls s', (∀ l ∈ ls, progressLabel l = true) ∧ ls.length ≤ rank s ∧ runLabels s ls = some s' ∧
-      NoCallback s' ∧ ∀ l, progressLabel l = true → step s' l = none := by
+      s'.runPc = .returned := by
+  obtain ⟨ls, s', h1, h2, h3, _, h5⟩ :=
+    schedule_exists progressLabel
+      (fun s => Reachable c s ∧ Terminating s ∧ NoCallback s ∧ ∀ p, s.runPc ≠ .starting p)
+      (fun _ _ _ hp hs => rank_decreases hp hs)
+      (fun _ _ l hi hp hs =>
+        ⟨Reachable.step l hi.1 hs, terminating_stable hs hi.2.1,
+          noCallback_progress_past hp hs hi.2.2.2 hi.2.2.1⟩)
+      (fun _ hi hn => no_deadlock hi.1 hi.2.1 hn hi.2.2.1)
+      (rank s) (Nat.le_refl _) ⟨hr, ht, hc, hpast⟩
+  exact ⟨ls, s', h1, h2, h3, h5⟩
+
+/-- steps of the schedule alphabet alone, at most `rank s` of them, lead to a state in which none
+is enabled; no user code is in progress there -/
+theorem run_to_quiescence : ∀ (n : Nat) {s : St}, rank s ≤ n → LoopQuiet s →
+    ∃ ls s', (∀ l ∈ ls, scheduleLabel l = true) ∧ ls.length ≤ rank s ∧ runLabels s ls = some s' ∧
+      NoCallback s' ∧ ∀ l, scheduleLabel l = true → step s' l = none := by
+  have fin : ∀ s : St, LoopQuiet s → (∀ l, scheduleLabel l = true → step s l = none) → NoCallback s := by
+    intro s hq hnone
+    refine ⟨hq.1, hq.2.1, hq.2.2, ?_, ?_, ?_⟩
+    · intro h; have := hnone .startWriterReturns rfl; simp [step, h] at this
+    · intro h; have := hnone .initReturns rfl; simp [step, h] at this
+    · intro h; have := hnone .firstViewReturns rfl; simp [step, h] at this
   intro n
   induction n with
   | zero =>
     intro s hn hc
-    refine ⟨[], s, by simp, by simp, rfl, hc, ?_⟩
-    intro l hp
-    cases hs : step s l with
-    | none => rfl
-    | some s1 => have := rank_decreases hp hs; omega
+    have hnone : ∀ l, scheduleLabel l = true → step s l = none := by
+      intro l hp
+      cases hs : step s l with
+      | none => rfl
+      | some s1 => have := rank_decreases_schedule hp hs; omega
+    exact ⟨[], s, by simp, by simp, rfl, fin s hc hnone, hnone⟩
   | succ n ih =>
     intro s hn hc
-    by_cases hex : ∃ l, progressLabel l = true ∧ (step s l).isSome = true
+    by_cases hex : ∃ l, scheduleLabel l = true ∧ (step s l).isSome = true
     · obtain ⟨l, hp, hen⟩ := hex
       obtain ⟨s1, hs1⟩ := Option.isSome_iff_exists.1 hen
-      have hlt := rank_decreases hp hs1
+      have hlt := rank_decreases_schedule hp hs1
       obtain ⟨ls, s2, hall, hlen, hrun, hc2, hq⟩ :=
-        ih (s := s1) (by omega) (noCallback_progress hp hs1 hc)
+        ih (s := s1) (by omega) (loopQuiet_schedule hp hs1 hc)
       refine ⟨l :: ls, s2, ?_, ?_, ?_, hc2, hq⟩
       · intro l' hl'
         rcases List.mem_cons.1 hl' with h | h
@@ -270,31 +355,34 @@ theorem run_to_quiescence : ∀ (n : Nat) {s : St}, rank s ≤ n → NoCallback 
         · exact hall l' h
       · simp only [List.length_cons]; omega
       · simp only [runLabels, hs1]; exact hrun
-    · refine ⟨[], s, by simp, by simp, rfl, hc, ?_⟩
-      intro l hp
-      cases hs : step s l with
-      | none => rfl
-      | some s1 => exact absurd ⟨l, hp, by rw [hs]; rfl⟩ hex
+    · have hnone : ∀ l, scheduleLabel l = true → step s l = none := by
+        intro l hp
+        cases hs : step s l with
+        | none => rfl
+        | some s1 => exact absurd ⟨l, hp, by rw [hs]; rfl⟩ hex
+      exact ⟨[], s, by simp, by simp, rfl, fin s hc hnone, hnone⟩
 
 /-- ... and in that state every shutdown call has completed: Run has returned (if termination
 had begun) and every Kill() / panic handler has finished its shutdown -/
-theorem everybody_done {c : Config} {s : St} (hr : Reachable c s) (hc : NoCallback s) :
-    ∃ ls s', (∀ l ∈ ls, progressLabel l = true) ∧ ls.length ≤ rank s ∧ runLabels s ls = some s' ∧
+theorem everybody_done {c : Config} {s : St} (hr : Reachable c s) (hc : LoopQuiet s) :
+    ∃ ls s', (∀ l ∈ ls, scheduleLabel l = true) ∧ ls.length ≤ rank s ∧ runLabels s ls = some s' ∧
       (Terminating s → s'.runPc = .returned) ∧ (∀ (j : Nat) (ph : ShPhase), s'.killers[j]? = some ph → ph = .done) := by
   obtain ⟨ls, s', hall, hlen, hrun, hc', hq⟩ := run_to_quiescence (rank s) (Nat.le_refl _) hc
   have hr' := reachable_runLabels ls hr hrun
+  have hq' : ∀ l, progressLabel l = true → step s' l = none :=
+    fun l hp => hq l (by simp [scheduleLabel, hp])
   refine ⟨ls, s', hall, hlen, hrun, ?_, ?_⟩
   · intro ht
     apply Classical.byContradiction
     intro hn
     obtain ⟨l, hp, he⟩ := no_deadlock hr' (terminating_runLabels ls hrun ht) hn hc'
-    rw [hq l hp] at he
+    rw [hq' l hp] at he
     cases he
   · intro j ph hj
     apply Classical.byContradiction
     intro hn
     obtain ⟨l, hp, he⟩ := killer_no_deadlock hr' hc' j ph hj hn
-    rw [hq l hp] at he
+    rw [hq' l hp] at he
     cases he
 
 /-- in ANY schedule (any labels, external ones included) the number of progress steps is
